@@ -809,13 +809,13 @@ def specs(tier='quick'):
 
 
 META = {
-    'category': 'proof',
+    'category': 'other',
     'technique': 'contract-based deductive verification (pyvc): refinement of an abstract map keyed by the folded '
                  'name, every mapping entry point resolved through the real class statement',
     'level_text': 'For CaseInsensitiveDict, CaseInsensitiveDefaultDict and SymbolTable every mapping entry point '
                   '(__getitem__, __setitem__, __delitem__, __contains__, get, pop, setdefault, update, __init__) is '
                   'checked, for all keys and all table contents, to refine the abstract operation on fold(key); '
-                  'overridden methods are the real source, inherited ones the model of the CPython base method.',
+                  'overridden methods are the real source, inherited ones the model of the CPython base method. Scope.update / declare / get_type / get_symbol_scope (loki/types/scope.py) are executed from their real source on a scope whose table is used through that proved contract: update and declare consult and change only the scope\'s own table (the fail flag decides on the LOCAL declaration), get_type returns a copy of the innermost declaration along the chain, get_symbol_scope the innermost declaring scope (its while loop is unrolled on chains of 1..3 scopes: bounded in the chain length, which is why the level is other rather than proof; everything else holds for all inputs).',
     'level_note': 'Trusted: pyvc engine; models of the inherited CPython methods (which of them dispatch to the '
                   'overridden __setitem__/__contains__); lower() uninterpreted in proofs (idempotent, length '
                   'preserving) and interpreted character-wise (ASCII, length <= 4) for counterexamples; weak '
